@@ -239,6 +239,26 @@ theorem C17_setup_batch_reqs (env : Env) (tx : BatchTx) (hint : Nat)
   rw [setupBatch_flat, setupFlat_reqs env tx hint (flatPairs batch) f [] hall]
   simp
 
+/-- **Re-proposed batches:** whenever `PrepChannelFunding` succeeds against an lnd that already holds the shims
+`lnd0` (left over from earlier proposals whose cancel failed or was skipped), every pair it registered – and told
+the acceptor about – is held by lnd with exactly the shim derived from *this* proposal's batch transaction and height
+hint, and lnd held nothing for that pending id before.  So the bidder never accepts a proposal while its lnd keeps a
+stale shim for one of its pairs (a leftover shim makes the register call, hence the whole preparation, fail). -/
+theorem C17_lnd_holds_current (env : Env) (node : Bytes) (batch : List (Order × List MatchedOrder)) (tx : BatchTx)
+    (hint : Nat) (lnd0 : LndShims) (st : PrepSt)
+    (h : prepBatchLnd env node batch tx hint lnd0 = .ok st) :
+    ∀ r, r ∈ st.out.regs → lndLookup st.lnd r.2.1 = some r.1 ∧ lndLookup lnd0 r.2.1 = none := by
+  unfold prepBatchLnd at h
+  have hinv := resFoldl_inv
+    (fun st (e : Order × List MatchedOrder) => resFoldl (prepMatchLnd env node e.1 tx hint) st e.2)
+    (fun st => HeldInv lnd0 st ∧ KeepsInv lnd0 st)
+    (fun s e s' hs hP =>
+      resFoldl_inv (prepMatchLnd env node e.1 tx hint) (fun st => HeldInv lnd0 st ∧ KeepsInv lnd0 st)
+        (fun s1 m s2 hm hP1 => prepMatchLnd_inv env node e.1 tx hint lnd0 s1 m s2 hm hP1) e.2 s s' hP hs)
+    batch { lnd := lnd0 } st
+    ⟨fun r hr => by simp at hr, fun q sh hq => hq⟩ h
+  exact hinv.1
+
 /-! ## Sidecar bids
 
 Three parties: the provider holds the bid `b` with ticket `t` and submits it with the *recipient's* multisig and
@@ -568,5 +588,15 @@ def exBatch : List (Order × List MatchedOrder) :=
 example : (match prepBatch exEnv [5] exBatch exTx 800000 with
     | .ok out => (out.conns, out.regs.map (fun r => r.2.1))
     | _ => ([], [])) = ([[4]], [[0xa, 0xb], [0xc, 0xb]]) := by decide
+
+-- re-proposal with a leftover shim: the second preparation fails; after a successful cancel it succeeds
+example : (match prepBatchLnd exEnv [5] exBatch exTx 800000 [] with
+    | .ok st => (match prepBatchLnd exEnv [5] exBatch { exTx with txid := [0x78] } 800003 st.lnd with
+        | .err => (match prepBatchLnd exEnv [5] exBatch { exTx with txid := [0x78] } 800003
+              (cancelPendingFundingShims exEnv.H exBatch [] st.lnd) with
+            | .ok st2 => st2.lnd.map (fun e => (e.2.txid, e.2.thawHeight))
+            | _ => [])
+        | _ => [])
+    | _ => []) = [([0x78], 802019), ([0x78], 802019)] := by decide
 
 end Pool.C17
